@@ -175,6 +175,7 @@ def showObs : Rec → String
   | .ipull _ _ o => if o == noIter then "noiter" else showIObs o
   | .iterall _ _ o => showIObs o
   | .roundtrip _ => "same"
+  | .readonly _ => "done"
   | _ => "ok"
 
 /-- Self-check of the string layer: the observation survives rendering and parsing. -/
@@ -258,6 +259,12 @@ def engine : Engine DState where
       match parseKind kind with
       | some kind => withCur d cur (fun c => judge d (.iterall kind c (parseIObs impl)))
       | none => bad d
+    | ["ro", _, touch] =>
+      -- a read-only request; `touch`: the kind whose sorted index it walks, or `-`
+      if touch == "-" then judge d (.readonly none)
+      else match parseKind touch with
+        | some kind => judge d (.readonly (some kind))
+        | none => bad d
     | ["roundtrip", _] => judge d (.roundtrip (impl == "same"))
     | ["codec", _] => judge d (.codec (impl == "ok"))
     | _ => bad d
